@@ -5,6 +5,7 @@ from __future__ import annotations
 import ast
 import itertools
 import io
+import re
 import tokenize
 import typing
 
@@ -871,6 +872,14 @@ DECOR_OK = {'expr', 'expr_all', 'expr_arglike', 'expr_slice', 'Tuple_elt', 'Tupl
             'ImportFrom_name', '_ImportFrom_names', 'withitem', '_withitems'}
 
 
+ALIAS_MODES = {'alias', '_aliases', 'Import_name', '_Import_names', 'ImportFrom_name', '_ImportFrom_names'}
+TRAILS = ('  # a; b, c: d = e', '  #;', ' # x ; ')
+
+
+def no_pos(dump):
+    return re.sub(r',? ?\b(?:end_)?(?:lineno|col_offset)=-?\d+', '', dump)
+
+
 def execute(case, ctx):
     sel = case.get('sel', 0)
 
@@ -931,9 +940,32 @@ def execute(case, ctx):
         v = (sel + k) % 8
 
         if v == 0 and mode in DECOR_OK:
-            for dec in ('# lead\n' + frag, frag + '  # trail', frag + '\n# after', '\n' + frag + '\n'):
+            for dec in ('# lead\n' + frag, frag + '  # trail', frag + '\n# after', '\n' + frag + '\n', frag + TRAILS[0], '# a; b, c: d = e\n' + frag, frag + '\n# after; x, y: z'):
                 check_fragment(mode, dec, mode in PAREN_EMBEDDED, ctx, 'decorated')
                 ctx.mark_nontrivial((mode, dec), None)
+        elif v == 0 and mode in ALIAS_MODES and '\n' not in frag:
+            for tr in TRAILS:  # a comment after a one-line alias is a comment after the import statement in every embedding
+                check_fragment(mode, frag + tr, True, ctx, 'decorated')
+                ctx.mark_nontrivial((mode, frag + tr), None)
+
+        if v == 0 and not frag.rstrip(' \t').endswith('\\') and frag.strip() and (mode in DECOR_OK or (mode in ALIAS_MODES and '\n' not in frag)):
+            # metamorphic, guessing modes: a comment after the last token never changes what the source is parsed as
+            for gm in ('all', 'strict'):
+                try:
+                    k0 = dump_pfst(gm, FST(frag, gm).a)
+                except Exception:
+                    continue
+
+                for tr in TRAILS:
+                    try:
+                        k1 = dump_pfst(gm, FST(frag + tr, gm).a)
+                    except Exception as exc:
+                        raise Violation('C05.comment_changes_guess', f'FST({frag!r}, {gm!r}) is accepted but with the trailing comment {tr!r} it raises {exc!r}', f'{gm}:trail') from None
+
+                    if no_pos(k1) != no_pos(k0):
+                        raise Violation('C05.comment_changes_guess', f'FST({frag!r}, {gm!r}) -> {k0[:120]} but with the trailing comment {tr!r} -> {k1[:120]}', f'{gm}:trail')
+
+                    ctx.count('guess_mode_trailing_comment_checked')
         elif v == 1:
             for m in mutants(frag, sel + k):
                 check_fragment(mode, m, False, ctx, 'mutant')
